@@ -256,3 +256,46 @@ def s10(facts, rep):
     n += 1
     rep.check(not bad, "S10", short, "element-preserving-adapters", "%s builds the pages handed to the store / the overlay with `%s` (at %s), which can drop an updated page: a page cleared in an overlay whose bucket is not known yet would never be released at commit, so the chain's commit differs from direct commits" % (short, ", ".join(m for m, _l in bad), ", ".join(str(l) for _m, l in bad)), site=body.span, detail="adapters used: %s" % ", ".join(seen))
     return n
+
+
+# ---- S12: an ancestor's data is picked by the position the index gives ---------------------------------
+# The overlay index maps each key to the sequence number of the overlay that LAST wrote it; the read methods of LiveOverlay
+# turn that number into a position in `ancestor_data` (most recent first).  Any other way of picking an ancestor - `last()`,
+# `first()`, iterating and taking the first hit, a constant position - can return the version of an OLDER ancestor although a
+# younger one rewrote or deleted the key.  Rule: in the read methods of LiveOverlay (everything but `new` and `finish`) the
+# vector `ancestor_data` is only measured (`len`, `is_empty`) or indexed (`[i]`, `get(i)` with a computed `i`).
+S12_ALLOWED = ("len", "is_empty", "index", "deref", "as_slice", "as_ref", "borrow", "clone")
+
+
+def s12(facts, rep):
+    n = 0
+    seen = 0
+    for body in facts.bodies.values():
+        if body.crate != "nomt" or not body.id.startswith("nomt::overlay::LiveOverlay::") or "::tests::" in body.id:
+            continue
+        base = body.id.split("::{closure")[0]
+        if base.endswith(("::new", "::finish")):
+            continue
+        short = body.id.split("::", 1)[1]
+        for b, t in body.calls():
+            if body.is_cleanup(b) or not t.get("args"):
+                continue
+            rs = trace(body, t["args"][0])
+            if not any("ancestor_data" in r.fields and r.kind in ("param", "upvar") for r in rs):
+                # through deref plumbing: `(*self.ancestor_data).last()` goes through Vec::deref first
+                if not any(r.kind in ("call", "via") and r.obj is not None and r.obj.get("args") and str(r.what).rsplit("::", 1)[-1] in ("deref", "as_slice") and any("ancestor_data" in x.fields and x.kind in ("param", "upvar") for x in trace(body, r.obj["args"][0])) for r in rs):
+                    continue
+            m = (t.get("callee") or "").rsplit("::", 1)[-1]
+            seen += 1
+            if m in S12_ALLOWED:
+                if m in ("index",) and len(t["args"]) > 1 and t["args"][1].get("k") == "const":
+                    pass
+                else:
+                    continue
+            if m == "get" and len(t["args"]) > 1 and t["args"][1].get("k") != "const":
+                continue
+            n += 1
+            rep.violation("S12", short, "ancestor-picked-by=%s" % m, "%s picks an ancestor's data with `%s` at %s instead of the position computed from the index's sequence number: the version of an older ancestor can be returned although a younger ancestor rewrote or deleted the key" % (short, m, t.get("ln")), site=t.get("ln"))
+    n += 1
+    rep.ok("S12", "overlay::LiveOverlay", "ancestor-data-by-position", detail="%d use(s) of ancestor_data in the read methods inspected: measured or indexed only" % seen)
+    return n
